@@ -12,30 +12,32 @@ import (
 func DetectDeviceConfigChanges(ctx context.Context) <-chan bool {
 	var change = make(chan bool)
 
+	// the directories are watched before the function returns: a modification made right after that is not missed
+	watcher, err := fsnotify.NewWatcher()
+	if err != nil {
+		close(change)
+		return change
+	}
+
+	go func() {
+		<-ctx.Done()
+		err := watcher.Close()
+		if err != nil {
+			log.Info(fmt.Sprintf("closing watched failed: %v", err), logger.Debug)
+		}
+	}()
+
+	for _, path := range []string{
+		factoryGamepad,
+		factoryKeyboard,
+		userGamepad,
+		userKeyboard,
+	} {
+		err = watcher.Add(path)
+	}
+
 	go func() {
 		defer close(change)
-		watcher, err := fsnotify.NewWatcher()
-		if err != nil {
-			return
-		}
-
-		go func() {
-			<-ctx.Done()
-			err := watcher.Close()
-			if err != nil {
-				log.Info(fmt.Sprintf("closing watched failed: %v", err), logger.Debug)
-			}
-		}()
-
-		for _, path := range []string{
-			factoryGamepad,
-			factoryKeyboard,
-			userGamepad,
-			userKeyboard,
-		} {
-			err = watcher.Add(path)
-		}
-
 		for event := range watcher.Events {
 			if event.Op != fsnotify.Write {
 				continue
